@@ -842,7 +842,8 @@ static void run_C14()
                      {
             float x[4096];
             f32_pattern_block(items[i].blk, items[i].layout, x);
-            loop_block<float>(S, items[i].fn, x, 4096, items[i].layout); });
+            loop_block<float>(S, items[i].fn, x, 4096, items[i].layout); },
+                     [&](uint64_t i) { return fmt("%s<f32> on float32 pattern block %llu (first pattern 0x%08llx), layout %d", MATHFN[items[i].fn].name, (unsigned long long)items[i].blk, (unsigned long long)(items[i].blk * 4096), items[i].layout); });
         // doubles: generator streams + every binade (2^k, +-) + NaN/inf + mixed companions (one huge negative lane, others small)
         long nb = budget(64, 4096);
         struct DItem
@@ -878,7 +879,8 @@ static void run_C14()
             else
                 for (int k = 0; k < 4096; ++k)
                     x[k] = (k % 5 == 0) ? std::ldexp(1.0 + r.unit(), (int)(r.next() % 1020)) : (r.unit() * 400.0 - 200.0);
-            loop_block<double>(S, ditems[i].fn, x, 4096, mode); });
+            loop_block<double>(S, ditems[i].fn, x, 4096, mode); },
+                     [&](uint64_t i) { return fmt("%s<f64> generated block %llu, mode %d (0 streams, 1 every binade, 2 one huge negative lane among small ones, 3 huge positives)", MATHFN[ditems[i].fn].name, (unsigned long long)ditems[i].idx, (int)(ditems[i].idx % 4)); });
     }
     // (b) timing of every function: blocks spread log-uniformly over the argument magnitudes
     {
@@ -889,11 +891,15 @@ static void run_C14()
         };
         std::vector<Item> items;
         long nb = budget(48, 1024);
-        for (int fn = 0; fn <= FN_POW; ++fn)
+        for (int fn = 0; fn < FN_COUNT; ++fn)
+        {
+            if (fn > FN_POW && fn != FN_IPOW)
+                continue;
             for (int dbl = 0; dbl < 2; ++dbl)
                 if (selected(MATHFN[fn].name, dbl ? "f64" : "f32"))
                     for (long b = 0; b < nb; ++b)
                         items.push_back({ fn, dbl, (uint64_t)b });
+        }
         auto make = [&](const Item& it, float* xf, float* yf, double* xd, double* yd)
         {
             // each block holds one magnitude class so that a slow class stands out: exponent chosen from the block index
@@ -909,6 +915,13 @@ static void run_C14()
                 if (special)
                     v = (k & 3) == 0 ? NAN : (k & 3) == 1 ? INFINITY : (k & 3) == 2 ? -INFINITY : 0.0;
                 double w = std::ldexp(1.0 + r.unit(), (int)(r.next() % 40) - 20);
+                if (it.fn == FN_IPOW)
+                { // integer exponents of every magnitude and both signs, incl. INT_MIN / INT_MAX; moderate bases
+                    int kbit = (int)(it.idx % 32);
+                    double mag = kbit == 31 ? 2147483648.0 : (double)((1u << kbit) | (uint32_t)(r.next() & ((1u << kbit) - 1)));
+                    w = ((it.idx / 32) & 1) ? -mag : std::fmin(mag, 2147483520.0);
+                    v = (k & 1) ? 1.0 + (r.unit() - 0.5) * 1e-3 : -(0.5 + r.unit());
+                }
                 if (it.dbl)
                 {
                     xd[k] = v;
@@ -931,7 +944,15 @@ static void run_C14()
             if (items[i].dbl)
                 timed_block<double>(items[i].fn, xd, bin ? yd : nullptr, 1024, i);
             else
-                timed_block<float>(items[i].fn, xf, bin ? yf : nullptr, 1024, i); });
+                timed_block<float>(items[i].fn, xf, bin ? yf : nullptr, 1024, i); },
+                     [&](uint64_t i)
+                     {
+                         float xf[1024], yf[1024];
+                         double xd[1024], yd[1024];
+                         make(items[i], xf, yf, xd, yd);
+                         return fmt("%s<%s> timed block %llu: x[0]=%.9g y[0]=%.9g x[1]=%.9g", MATHFN[items[i].fn].name, items[i].dbl ? "f64" : "f32", (unsigned long long)items[i].idx,
+                                    items[i].dbl ? xd[0] : (double)xf[0], items[i].dbl ? yd[0] : (double)yf[0], items[i].dbl ? xd[1] : (double)xf[1]);
+                     });
         // analysis
         for (auto& kv : g_times)
         {
